@@ -51,6 +51,9 @@ def cases(tier, seed):
         for pat, pol, b in itertools.product(PATTERNS, ["mask", "fill"], [[], [2]]):
             yield {"kind": "lik_terms", "pattern": pat, "policy": pol, "batch": b, "n": 6, "fillvalue_target": True, "seed": rnd.randrange(10**6)}
             yield {"kind": "lik_terms", "pattern": pat, "policy": pol, "batch": b, "n": 4, "t": 2, "seed": rnd.randrange(10**6)}
+        # fixed per-point noise (with and without a learned additional noise): the noise entries of the missing points go with them
+        for pat, pol, lk in itertools.product(PATTERNS, ["mask", "fill"], ["fixed", "fixed+learn"]):
+            yield {"kind": "lik_terms", "pattern": pat, "policy": pol, "lik": lk, "batch": [], "n": 6, "seed": rnd.randrange(10**6)}
         # the (deprecated) likelihood class that handles NaN targets itself, whatever the policy setting
         for pat, pol, b in itertools.product(PATTERNS, ["ignore", "fill"], [[], [2]]):
             yield {"kind": "lik_terms", "pattern": pat, "policy": pol, "legacy_class": True, "batch": b, "n": 6, "fillvalue_target": True, "seed": rnd.randrange(10**6)}
@@ -405,7 +408,10 @@ def _lik_terms(case, ctx, g):
     else:
         mean = util.randn(g, *b, N)
         d = MVN(mean, C)
-        if case.get("legacy_class"):
+        if case.get("lik") in ("fixed", "fixed+learn"):
+            fixed_ = util.rand(g, N) * 0.6 + 0.05
+            lik = gpytorch.likelihoods.FixedNoiseGaussianLikelihood(noise=fixed_.clone(), learn_additional_noise=case["lik"] == "fixed+learn")
+        elif case.get("legacy_class"):
             import warnings
 
             with warnings.catch_warnings():
@@ -414,7 +420,7 @@ def _lik_terms(case, ctx, g):
         else:
             lik = gpytorch.likelihoods.GaussianLikelihood()
         util.randomize(lik, g, 0.5)
-        r = lik.noise.detach().expand(*b, N)
+        r = lik.noise.detach().expand(*b, N) if case.get("lik") not in ("fixed", "fixed+learn") else (fixed_ + (lik.second_noise.detach() if case["lik"] == "fixed+learn" else 0.0)).expand(*b, N)
         v = torch.diagonal(C, dim1=-2, dim2=-1)
     y = mean + util.randn(g, *mean.shape)
     miss = torch.zeros(mean.shape, dtype=torch.bool)
